@@ -4,6 +4,8 @@ groups live in vf/bounded/cNN.py and are wired by vf/props/CNN.py."""
 E1 = {
     "C08": (["contracts.c08"], ["DAG._get_ancestors_of", "DAG.active_trail_nodes", "DAG.is_dconnected", "DAG.get_markov_blanket",
                                  "BayesianNetwork.get_markov_blanket", "DAG.moralize", "DAG.get_ancestral_graph"]),
+    "C10": (["contracts.c10"], ["StructureScore.score"]),
+    "C11": (["contracts.c11"], ["HillClimbSearch._legal_operations"]),
     "C13": (["contracts.c15"], ["DAG.do"]),
     "C15": (["contracts.c15"], ["BayesianNetwork.add_edge"]),
     "C18": (["contracts.c18"], ["Independencies.closure.<locals>.sg1", "Independencies.closure.<locals>.sg2",
